@@ -304,6 +304,12 @@ func init() {
 									c.Fail(prop, cls, fmt.Sprintf("%s: Get(type %d, session %q, key %q) returned %q although nothing was written there", where, pfx, sid, key, trunc(string(v), 30)))
 								}
 							} else if !bytes.Equal(v, exp) {
+								// C18: a language-scoped read with a translation present must return the translation
+								if _, okT := ref[mkCoord(pfx, sid, eff, key)]; okT && eff != nil && dom == "wf" {
+									if d, okD := ref[mkCoord(pfx, sid, nil, key)]; okD && bytes.Equal(d, v) {
+										c.Fail("C18", "translation-ignored", fmt.Sprintf("%s: Get(type %d, session %q, key %q) in language %q returned the default entry %q although the translation %q exists", where, pfx, sid, key, *eff, trunc(string(v), 30), trunc(string(exp), 30)))
+									}
+								}
 								cls, prop := classifyLeak(backend, ref, mkCoord(pfx, sid, eff, key), mkCoord(pfx, sid, nil, key), v)
 								if prop == "C11" || dom == "wf" {
 									c.Fail(prop, cls, fmt.Sprintf("%s: Get(type %d, session %q, key %q) returned %q, latest write there was %q", where, pfx, sid, key, trunc(string(v), 30), trunc(string(exp), 30)))
